@@ -152,25 +152,41 @@ class Rewriter:
         if crv is None or crv['r'] != 'agg' or crv.get('kind') != 'closure':
             raise Bail('closure value is not built in this body')
         caps = crv['ops']
+        env_is_ref = cbody['locals'][1].startswith('&')
+        cache = body.setdefault('_closure_caps', {})
+        cap_place = cache.get(closure_local)
+        if cap_place is None:
+            cap_place = {}  # capture index -> ('ref', place, mut) | ('val', local)
+            inits = []
+            for i, o in enumerate(caps):
+                l = op_local(o)
+                rv = _single_assign(body, l) if l is not None else None
+                if rv is not None and rv['r'] == 'ref':
+                    cap_place[i] = ('ref', rv['pl'], rv.get('mut', False))
+                else:
+                    # captured by value: the closure owns a copy, initialised where the closure is created and shared by all its calls
+                    ty = body['locals'][l] if l is not None else o.get('ty', '?')
+                    nlc = self.newlocal(ty)
+                    inits.append({'s': 'assign', 'pl': {'l': nlc}, 'rv': {'r': 'use', 'o': o}, 'at': at})
+                    cap_place[i] = ('val', nlc)
+            if inits:
+                placed = False
+                for b in body['blocks']:
+                    for si, st_ in enumerate(b['st']):
+                        if st_['s'] == 'assign' and st_['pl'] == {'l': closure_local} and st_['rv'] is crv:
+                            b['st'][si + 1:si + 1] = inits
+                            placed = True
+                            break
+                    if placed:
+                        break
+                if not placed:
+                    raise Bail('closure creation site not found')
+            cache[closure_local] = cap_place
         L0 = len(body['locals'])
         body['locals'].extend(cbody['locals'])
         B0 = len(body['blocks'])
         P0 = len(body['promoted'])
         body['promoted'].extend(copy.deepcopy(cbody['promoted']))
-        env_is_ref = cbody['locals'][1].startswith('&')
-        cap_place = {}  # capture index -> ('ref', place, mut) | ('val', local)
-        for i, o in enumerate(caps):
-            l = op_local(o)
-            rv = _single_assign(body, l) if l is not None else None
-            if rv is not None and rv['r'] == 'ref':
-                cap_place[i] = ('ref', rv['pl'], rv.get('mut', False))
-            else:
-                # captured by value: the closure owns a copy that lives across the iterations
-                ty = body['locals'][l] if l is not None else o.get('ty', '?')
-                nlc = self.newlocal(ty)
-                self.pre.append({'s': 'assign', 'pl': {'l': nlc}, 'rv': {'r': 'use', 'o': o}, 'at': at})
-                cap_place[i] = ('val', nlc)
-
         def is_env_field(pl):
             """(capture index, remaining projection) if the place goes through the closure environment"""
             if pl['l'] != 1:
@@ -477,6 +493,55 @@ class Rewriter:
         blocks[bi]['term'] = {'t': 'goto', 'to': self.names['H']}
 
 
+def _direct_call_target(insts, body, t):
+    """(closure instance key, closure local) if the call invokes a closure value built in this body"""
+    if t['t'] != 'call' or not t.get('closure_call') or t.get('leaf') or t['callee'] not in insts or t['to'] < 0:
+        return None
+    if not insts[t['callee']].get('is_closure') or not t['args']:
+        return None
+    a0 = op_local(t['args'][0])
+    if a0 is None:
+        return None
+    ty = t['argtys'][0] if t.get('argtys') else ''
+    if ty.startswith('&'):
+        rv = _single_assign(body, a0)
+        if rv is None or rv['r'] != 'ref' or rv['pl'].get('p'):
+            return None
+        cl = rv['pl']['l']
+    else:
+        cl = a0
+    crv = _single_assign(body, cl)
+    if crv is None or crv['r'] != 'agg' or crv.get('kind') != 'closure':
+        return None
+    return t['callee'], cl
+
+
+def rewrite_direct_call(insts, body, bi, done):
+    """`f(args)` where f is a closure built in this body: splice f's body in place of the call (its captured variables are the
+    caller's own places, so state it mutates is seen by the caller and by its later calls)"""
+    t = body['blocks'][bi]['term']
+    ckey, cl = _direct_call_target(insts, body, t)
+    at = t.get('at')
+    rw = Rewriter(insts, body, done)
+    B0, L0, cbody = rw.splice(ckey, cl, 'DRET', at)
+    argc = cbody.get('argc', 0)
+    st = []
+    if argc > 1:
+        if len(t['args']) < 2:
+            raise Bail('closure arguments')
+        tup = t['args'][1]
+        for i in range(argc - 1):
+            if tup['k'] in ('copy', 'move'):
+                src = {'k': 'move', 'pl': {'l': tup['pl']['l'], 'p': list(tup['pl'].get('p', [])) + [{'f': i, 'n': str(i)}]}}
+            else:
+                raise Bail('constant argument tuple')
+            st.append({'s': 'assign', 'pl': {'l': L0 + 2 + i}, 'rv': {'r': 'use', 'o': src}, 'at': at})
+    rw.add_block('DRET', [{'s': 'assign', 'pl': t['dest'], 'rv': {'r': 'use', 'o': {'k': 'move', 'pl': {'l': L0}}}, 'at': at}], {'t': 'goto', 'to': t['to']})
+    rw.resolve()
+    body['blocks'][bi]['st'] = body['blocks'][bi]['st'] + st
+    body['blocks'][bi]['term'] = {'t': 'goto', 'to': B0}
+
+
 def inline_body(insts, body, done):
     key = body['key']
     if key in done:
@@ -489,14 +554,18 @@ def inline_body(insts, body, done):
         guard += 1
         for bi, b in enumerate(body['blocks']):
             t = b['term']
-            if b['cleanup'] or t['t'] != 'call' or not t.get('leaf') or not CONSUMER.match(t['callee']):
+            if b['cleanup'] or t['t'] != 'call' or t.get('_noinline'):
                 continue
-            if t.get('_noinline'):
+            direct = _direct_call_target(insts, body, t) is not None
+            if not direct and not (t.get('leaf') and CONSUMER.match(t['callee'])):
                 continue
             snap = (len(body['locals']), len(body['blocks']), len(body['promoted']), copy.deepcopy(body['blocks']), dict(body['names']),
-                    list(body.get('inlined_iter_closures', [])))
+                    list(body.get('inlined_iter_closures', [])), copy.deepcopy(body.get('_closure_caps', {})))
             try:
-                Rewriter(insts, body, done).rewrite(bi)
+                if direct:
+                    rewrite_direct_call(insts, body, bi, done)
+                else:
+                    Rewriter(insts, body, done).rewrite(bi)
                 changed = True
                 break
             except (Bail, KeyError, IndexError) as e:
@@ -506,6 +575,7 @@ def inline_body(insts, body, done):
                 del body['promoted'][snap[2]:]
                 body['names'] = snap[4]
                 body['inlined_iter_closures'] = snap[5]
+                body['_closure_caps'] = snap[6]
                 body['blocks'][bi]['term']['_noinline'] = '%s: %s' % (type(e).__name__, e)
 
 
